@@ -45,7 +45,9 @@ def own_reports(rnd, n):
     for k in range(n):
         fm = rnd.choice(["json", "csv", "json, csv"])
         cols = rnd.choice(["id, name", "name, id, end", "id", "start, end, id", "id, effort"])
-        out.append('taskreport own%d "own%d" {\n  formats %s\n  columns %s\n}\n' % (k, k, fm, cols))
+        # file names with directory levels that do not exist yet (seeded change C19-c: only one level was created)
+        name = rnd.choice(["own%d", "own%d", "reports/own%d", "reports/2024/q1/own%d", "./own%d", "a/b/c/d/own%d"]) % k
+        out.append('taskreport own%d "%s" {\n  formats %s\n  columns %s\n}\n' % (k, name, fm, cols))
     return "".join(out)
 
 
@@ -440,7 +442,10 @@ def drive_c20(tier, seed, cfg):
     inputs["bad_syntax.tjp"] = texts[0][1].encode().replace(b"{", b"{ {", 1)
     inputs["bad_name.tjp"] = texts[1][1].encode() + b'taskreport bad "a:b" { formats json columns id }\n'
     inputs["empty.tjp"] = b""
-    failing = {"bad_syntax.tjp", "bad_name.tjp", "empty.tjp"}
+    # own reports whose file name points out of the per-run output directory (whatever the run answers, nothing may stay behind)
+    inputs["escape_rel.tjp"] = texts[2 % len(texts)][1].encode() + b'taskreport esc "../escaped_report" { formats json, csv columns id }\n'
+    inputs["escape_deep.tjp"] = texts[3 % len(texts)][1].encode() + b'taskreport esc "sub/../../escaped_deep" { formats csv columns id, start }\n'
+    failing = {"bad_syntax.tjp", "bad_name.tjp", "empty.tjp", "escape_rel.tjp", "escape_deep.tjp"}
     # ---- solitary reference runs
     sol = os.path.join(root, "solo")
     scwd, stmp = os.path.join(sol, "cwd"), os.path.join(sol, "tmp")
@@ -631,8 +636,50 @@ def drive_c20(tier, seed, cfg):
             sigs.add(common.dumps(("C20", "sigint", rc, bool(left_t), round(delay, 1))))
             if left_t:
                 add("interrupt-leaves-files-in-tmpdir", dict(delay=delay, rc=rc, left=left_t[:5]), dict(signal="SIGINT", delay=delay))
+    # the consumer of the report is gone or cannot take it: stdout is a pipe whose read end is closed / a full device
+    # (seeded change C20-c restored the default SIGPIPE disposition: the process died with every artefact in place)
+    def run_badout(k):
+        d = tempfile.mkdtemp(prefix="out-", dir=fd)
+        t2, c2 = os.path.join(d, "tmp"), os.path.join(d, "cwd")
+        os.makedirs(t2)
+        os.makedirs(c2)
+        name = sorted(inputs)[k % len(inputs)]
+        data = inputs[name]
+        open(os.path.join(c2, "in.tjp"), "wb").write(data)
+        kind = ["closed-pipe", "dev-full"][(k // 2) % 2]
+        use_stdin = bool(k % 2)
+        args = [PLAN, "--quiet", "report"] + (["--csv"] if (k // 4) % 2 else []) + ([] if use_stdin else ["in.tjp"])
+        if kind == "closed-pipe":
+            r_, w_ = os.pipe()
+            os.close(r_)
+        else:
+            w_ = os.open("/dev/full", os.O_WRONLY)
+        try:
+            p = subprocess.run(args, cwd=c2, env=cli_env(t2), input=(data if use_stdin else None), stdin=(None if use_stdin else subprocess.DEVNULL),
+                               stdout=w_, stderr=subprocess.PIPE, timeout=180)
+            rc = p.returncode
+        except subprocess.TimeoutExpired:
+            rc = "timeout"
+        finally:
+            os.close(w_)
+        left_t = snapshot(t2)
+        left_c = [x for x in snapshot(c2) if x != "in.tjp"]
+        shutil.rmtree(d, ignore_errors=True)
+        return k, kind, name, use_stdin, rc, left_t, left_c
+    with cf.ThreadPoolExecutor(max_workers=8) as ex:
+        for k, kind, name, use_stdin, rc, left_t, left_c in ex.map(run_badout, range(tc.get("badouts", 24))):
+            C["unwritable-stdout-runs"] += 1
+            sigs.add(common.dumps(("C20", "badout", kind, use_stdin, rc if isinstance(rc, str) else (rc if rc >= 0 else "signal"), bool(left_t))))
+            rp = dict(stdout=kind, input=name, stdin=use_stdin, rc=rc)
+            if rc == "timeout":
+                notes.append("unwritable-stdout run timed out (inconclusive): %s" % rp)
+                continue
+            if left_t:
+                add("unwritable-stdout-leaves-files-in-tmpdir", dict(kind=kind, rc=rc, left=left_t[:5]), rp)
+            if left_c:
+                add("unwritable-stdout-leaves-files-in-cwd", dict(kind=kind, rc=rc, left=left_c[:5]), rp)
     shutil.rmtree(root, ignore_errors=True)
-    C["cases"] = C["concurrent-processes"] + C["failpoint-runs"] + C["sigint-runs"] + C["solitary-runs"]
+    C["cases"] = C["concurrent-processes"] + C["failpoint-runs"] + C["sigint-runs"] + C["solitary-runs"] + C["unwritable-stdout-runs"]
     C["nontrivial"] = len(sigs)
     C["distinct-interleavings"] = sum(1 for s in sigs if s.startswith("interleaving:"))
     return dict(C=C, sigs=sigs, viols=viols, vc=vc, samples=samples, notes=notes, status=status, nworkers=common.NCPU)
